@@ -300,6 +300,31 @@ def IAct.helpful (x : Inst) : IAct → Bool
     | none => false
   | _ => false
 
+/-- run `r` of instance `i` waits for a permit and was neither woken nor cancelled -/
+def World.pendingAt (w : World) (i r : Nat) : Prop :=
+  ∃ x, w.get i = some x ∧ aget r x.waiters = some .pending
+
+def World.muAt (w : World) (i r : Nat) : Nat :=
+  match w.get i with
+  | some x => mu r x.waiters
+  | none => 0
+
+def World.isHelpful (w : World) (i : Nat) : Act → Bool
+  | .on j a => decide (j = i) && (match w.get i with
+    | some x => a.helpful x
+    | none => false)
+  | .mk _ _ => false
+
+/-- helpful actions of instance `i` executed along `acts`, starting in `w` -/
+def helpfulCount (i : Nat) : World → List Act → Nat
+  | _, [] => 0
+  | w, a :: acts => (if w.isHelpful i a then 1 else 0) + helpfulCount i (w.stepD a) acts
+
+/-- `r` is a pending waiter in every state visited along `acts` -/
+def staysPending (i r : Nat) : World → List Act → Prop
+  | w, [] => w.pendingAt i r
+  | w, a :: acts => w.pendingAt i r ∧ staysPending i r (w.stepD a) acts
+
 /-! ## the event loop's FIFO ready queue (used by the driver to predict quiescent states) -/
 
 structure Sched where
@@ -341,5 +366,25 @@ def Sched.settle : Nat → Sched → Sched
     match s.tick with
     | some (s', _, _) => Sched.settle fuel s'
     | none => s
+
+/-- what the driver does between two observations: external actions, single ticks, settling -/
+inductive SOp where
+  | ext (a : Act)
+  | tick
+  | settle (fuel : Nat)
+  deriving Repr
+
+def Sched.op (s : Sched) : SOp → Sched
+  | .ext a => (s.ext a).getD s
+  | .tick => match s.tick with
+    | some (s', _, _) => s'
+    | none => s
+  | .settle fuel => s.settle fuel
+
+/-- total version of `Inst.step` -/
+def Inst.stepD (x : Inst) (a : IAct) : Inst :=
+  match x.step a with
+  | some (x', _) => x'
+  | none => x
 
 end RunLimit
